@@ -9,47 +9,81 @@ Local Open Scope Z_scope.
 Definition rd32 (bs : list Z) : Z :=      (* file.read(&word, 4) of a little-endian host; missing bytes read as 0 *)
   nth 0 bs 0 + 256 * nth 1 bs 0 + 65536 * nth 2 bs 0 + 16777216 * nth 3 bs 0.
 
-(* while (c != '\0') { s += c; c = file.get(); } : the bytes up to the first NUL, and the rest after it *)
-Fixpoint take_cstring (bs : list Z) : list Z * list Z :=
+(* a 4-byte read that must succeed (the repaired loader throws when the stream fails inside the debug tables) *)
+Definition read32 (bs : list Z) : option (Z * list Z) :=
+  if (4 <=? List.length bs)%nat then Some (rd32 bs, skipn 4 bs) else None.
+
+(* c = file.get(); while (c != '\0') { s += c; c = file.get(); } : the bytes up to the first NUL and the rest after it;
+   None when the file ends before the NUL *)
+Fixpoint take_cstring (bs : list Z) : option (list Z * list Z) :=
   match bs with
-  | [] => ([], [])
-  | b :: r => if b =? 0 then ([], r) else let '(s, rest) := take_cstring r in (b :: s, rest)
+  | [] => None
+  | b :: r => if b =? 0 then Some ([], r) else
+              match take_cstring r with Some (s, rest) => Some (b :: s, rest) | None => None end
   end.
-Fixpoint read_strings (n : nat) (bs : list Z) : list (list Z) * list Z :=
-  match n with
-  | O => ([], bs)
-  | S k => let '(s, rest) := take_cstring bs in let '(ss, rest') := read_strings k rest in (s :: ss, rest')
+(* numStrings strings.  The count is a 32-bit number taken from the file, so the recursion is on fuel (every string
+   consumes at least its NUL byte: fuel = length of the rest + 1 is never exhausted before the bytes are) *)
+Fixpoint read_strings (fuel : nat) (n : Z) (bs : list Z) : option (list (list Z) * list Z) :=
+  if n <=? 0 then Some ([], bs) else
+  match fuel with
+  | O => None
+  | S f => match take_cstring bs with
+           | None => None
+           | Some (s, rest) => match read_strings f (n - 1) rest with
+                               | Some (ss, rest') => Some (s :: ss, rest')
+                               | None => None
+                               end
+           end
   end.
-Fixpoint read_symbols (n : nat) (strings : list (list Z)) (bs : list Z) : option (list (list Z * Z)) :=
-  match n with
-  | O => Some []
-  | S k =>
-      let idx := rd32 bs in let off := rd32 (skipn 4 bs) in
-      match nth_error strings (Z.to_nat idx) with
-      | None => None                                      (* strings[strIndex] out of range: undefined behaviour *)
-      | Some name => match read_symbols k strings (skipn 8 bs) with
-                     | Some r => Some ((name, off) :: r)
-                     | None => None
-                     end
+Fixpoint read_symbols (fuel : nat) (n : Z) (strings : list (list Z)) (bs : list Z) : option (list (list Z * Z)) :=
+  if n <=? 0 then Some [] else
+  match fuel with
+  | O => None
+  | S f =>
+      match read32 bs with
+      | None => None
+      | Some (idx, r1) =>
+          match read32 r1 with
+          | None => None
+          | Some (off, r2) =>
+              match nth_error strings (Z.to_nat idx) with
+              | None => None                              (* strings.at(strIndex) throws *)
+              | Some name => match read_symbols f (n - 1) strings r2 with
+                             | Some r => Some ((name, off) :: r)
+                             | None => None
+                             end
+              end
+          end
       end
   end.
 
-(* load(): returns the image words placed at address 0 and the debug table, or None where the C++ would index out
-   of range (a header word larger than the memory, a bad string index) *)
+(* load(): the image words placed at address 0 and the debug table; None where the (repaired) C++ throws: no header,
+   a header word larger than the memory, a debug section that ends early, a string index out of range.  A file whose
+   image is shorter than its header says is loaded as far as it goes (as before the repair). *)
 Definition load_file (file : list Z) : option (list Z * list (list Z * Z)) :=
   let size := Z.of_nat (List.length file) in
+  if size <? 4 then None else
   let remaining := ((size - 4 + 3) / 4) * 4 in
-  let program_size := rd32 file * 4 in
+  let program_size := (rd32 file * 4) mod W32 in          (* unsigned programSize; programSize <<= 2 *)
   if 800000 <? program_size then None else
   let image := firstn (Z.to_nat program_size) (skipn 4 file) in
   let rest := skipn (Z.to_nat program_size) (skipn 4 file) in
   if program_size <? remaining then
-    let nstr := rd32 rest in
-    let '(strings, rest1) := read_strings (Z.to_nat nstr) (skipn 4 rest) in
-    let nsym := rd32 rest1 in
-    match read_symbols (Z.to_nat nsym) strings (skipn 4 rest1) with
-    | Some tab => Some (words_of_bytes image, tab)
+    match read32 rest with
     | None => None
+    | Some (nstr, r1) =>
+        match read_strings (S (List.length r1)) nstr r1 with
+        | None => None
+        | Some (strings, r2) =>
+            match read32 r2 with
+            | None => None
+            | Some (nsym, r3) =>
+                match read_symbols (S (List.length r3)) nsym strings r3 with
+                | Some tab => Some (words_of_bytes image, tab)
+                | None => None
+                end
+            end
+        end
     end
   else Some (words_of_bytes image, []).
 
@@ -68,7 +102,14 @@ Lemma skipn_le32 v r : skipn 4 (le32 v ++ r) = r. Proof. reflexivity. Qed.
 
 Definition no_nul (s : list Z) : Prop := Forall (fun b => b <> 0) s.
 
-Lemma take_cstring_app s r : no_nul s -> take_cstring (s ++ 0 :: r) = (s, r).
+Lemma read32_le32 v r : read32 (le32 v ++ r) = Some (v mod W32, r).
+Proof.
+  unfold read32. replace (4 <=? List.length (le32 v ++ r))%nat with true.
+  - rewrite rd32_le32, skipn_le32. reflexivity.
+  - symmetry. apply Nat.leb_le. rewrite app_length, le32_length. lia.
+Qed.
+
+Lemma take_cstring_app s r : no_nul s -> take_cstring (s ++ 0 :: r) = Some (s, r).
 Proof.
   induction s as [|b s IH]; intros H; cbn [app take_cstring].
   - reflexivity.
@@ -76,38 +117,51 @@ Proof.
     rewrite IH by assumption. reflexivity.
 Qed.
 
-Lemma read_strings_app : forall (names : list (list Z)) r, Forall no_nul names ->
-  read_strings (List.length names) (flat_map (fun s => s ++ [0]) names ++ r) = (names, r).
+Lemma read_strings_app : forall (names : list (list Z)) r fuel, Forall no_nul names ->
+  (List.length names <= fuel)%nat ->
+  read_strings fuel (Z.of_nat (List.length names)) (flat_map (fun s => s ++ [0]) names ++ r) = Some (names, r).
 Proof.
-  induction names as [|s names IH]; intros r H; [reflexivity|].
-  inversion H; subst. cbn [List.length read_strings flat_map].
-  rewrite <- !app_assoc. cbn [app]. rewrite take_cstring_app by assumption.
-  rewrite IH by assumption. reflexivity.
+  induction names as [|s names IH]; intros r fuel H Hf.
+  - destruct fuel; reflexivity.
+  - inversion H; subst. cbn [List.length] in *. destruct fuel as [|f]; [lia|].
+    cbn [read_strings flat_map].
+    replace (Z.of_nat (S (List.length names)) <=? 0) with false by (symmetry; apply Z.leb_gt; lia).
+    rewrite <- !app_assoc. cbn [app]. rewrite take_cstring_app by assumption.
+    replace (Z.of_nat (S (List.length names)) - 1) with (Z.of_nat (List.length names)) by lia.
+    rewrite IH by (assumption || lia). reflexivity.
 Qed.
+
+Lemma flat_map_nul_length (names : list (list Z)) :
+  Nat.le (List.length names) (List.length (flat_map (fun s => s ++ [0]) names)).
+Proof. induction names as [|s r IH]; cbn [flat_map List.length]; [lia|]. rewrite !app_length. cbn [List.length]. lia. Qed.
 
 Fixpoint entries (offs : list Z) (i : Z) : list Z :=
   match offs with [] => [] | o :: r => le32 i ++ le32 o ++ entries r (i + 1) end.
 
-Lemma read_symbols_entries : forall (offs : list Z) (names : list (list Z)) (pre : list (list Z)) tail,
+Lemma entries_length offs : forall i, List.length (entries offs i) = (8 * List.length offs)%nat.
+Proof. induction offs as [|o r IH]; intros i; cbn [entries List.length]; [reflexivity|]. rewrite !app_length, !le32_length, IH. lia. Qed.
+
+Lemma read_symbols_entries : forall (offs : list Z) (names : list (list Z)) (pre : list (list Z)) tail fuel,
   List.length offs = List.length names ->
   Z.of_nat (List.length pre + List.length names) <= W32 ->
   Forall (fun o => 0 <= o < W32) offs ->
-  read_symbols (List.length offs) (pre ++ names) (entries offs (Z.of_nat (List.length pre)) ++ tail)
+  (List.length offs <= fuel)%nat ->
+  read_symbols fuel (Z.of_nat (List.length offs)) (pre ++ names) (entries offs (Z.of_nat (List.length pre)) ++ tail)
   = Some (combine names offs).
 Proof.
-  induction offs as [|o offs IH]; intros names pre tail Hl Hb Ho.
-  - destruct names; [reflexivity|discriminate].
+  induction offs as [|o offs IH]; intros names pre tail fuel Hl Hb Ho Hf.
+  - destruct names; [destruct fuel; reflexivity|discriminate].
   - destruct names as [|nm names]; [discriminate|].
-    cbn [List.length] in Hl, Hb. inversion Ho; subst.
-    cbn [List.length read_symbols entries]. rewrite <- !app_assoc.
-    rewrite rd32_le32, skipn_le32, rd32_le32.
+    cbn [List.length] in Hl, Hb, Hf. inversion Ho; subst. destruct fuel as [|f]; [lia|].
+    cbn [List.length read_symbols entries].
+    replace (Z.of_nat (S (List.length offs)) <=? 0) with false by (symmetry; apply Z.leb_gt; lia).
+    rewrite <- !app_assoc. rewrite read32_le32, read32_le32.
     unfold W32 in *. rewrite (Z.mod_small (Z.of_nat (List.length pre))) by lia.
     rewrite Nat2Z.id. rewrite nth_error_app2 by lia. rewrite Nat.sub_diag. cbn [nth_error].
-    change (skipn 8 (le32 (Z.of_nat (List.length pre)) ++ le32 o ++ entries offs (Z.of_nat (List.length pre) + 1) ++ tail))
-      with (entries offs (Z.of_nat (List.length pre) + 1) ++ tail).
     replace (pre ++ nm :: names) with ((pre ++ [nm]) ++ names) by (rewrite <- app_assoc; reflexivity).
     replace (Z.of_nat (List.length pre) + 1) with (Z.of_nat (List.length (pre ++ [nm]))) by (rewrite app_length; cbn; lia).
-    rewrite IH; [| lia | rewrite app_length; cbn; lia | assumption].
+    replace (Z.of_nat (S (List.length offs)) - 1) with (Z.of_nat (List.length offs)) by lia.
+    rewrite IH; [| lia | rewrite app_length; cbn; lia | assumption | lia].
     rewrite (Z.mod_small o) by lia. reflexivity.
 Qed.
 
@@ -122,26 +176,29 @@ Theorem load_roundtrip (img : list Z) (names : list (list Z)) (offs : list Z) :
   = Some (words_of_bytes img, combine names offs).
 Proof.
   intros n Hm Hn Hl Hk Hnul Hoffs. unfold load_file.
-  rewrite rd32_le32, skipn_le32. unfold W32 in *.
-  assert (Hn0: 0 <= n) by (unfold n; lia).
-  rewrite (Z.mod_small (n / 4)) by lia.
-  replace (n / 4 * 4) with n by lia.
-  replace (800000 <? n) with false by (symmetry; apply Z.ltb_ge; lia).
-  replace (Z.to_nat n) with (List.length img) by (unfold n; lia).
-  rewrite firstn_app, Nat.sub_diag, firstn_all, firstn_O, app_nil_r.
-  rewrite skipn_app, Nat.sub_diag, skipn_all, skipn_O. cbn [app].
   set (tables := le32 (Z.of_nat (List.length names)) ++ flat_map (fun s : list Z => s ++ [0]) names ++
                  le32 (Z.of_nat (List.length names)) ++ entries offs 0).
   assert (Hlen: (List.length (le32 (n / 4) ++ img ++ tables) >= 4 + List.length img + 8)%nat).
   { rewrite !app_length, le32_length. unfold tables. rewrite !app_length, !le32_length. lia. }
+  replace (Z.of_nat (List.length (le32 (n / 4) ++ img ++ tables)) <? 4) with false by (symmetry; apply Z.ltb_ge; lia).
+  rewrite rd32_le32, skipn_le32. unfold W32 in *.
+  assert (Hn0: 0 <= n) by (unfold n; lia).
+  rewrite (Z.mod_small (n / 4)) by lia.
+  replace (n / 4 * 4) with n by lia.
+  rewrite (Z.mod_small n) by lia.
+  replace (800000 <? n) with false by (symmetry; apply Z.ltb_ge; lia).
+  replace (Z.to_nat n) with (List.length img) by (unfold n; lia).
+  rewrite firstn_app, Nat.sub_diag, firstn_all, firstn_O, app_nil_r.
+  rewrite skipn_app, Nat.sub_diag, skipn_all, skipn_O. cbn [app].
   replace (n <? (Z.of_nat (List.length (le32 (n / 4) ++ img ++ tables)) - 4 + 3) / 4 * 4) with true.
   2:{ symmetry. apply Z.ltb_lt. unfold n in *. lia. }
-  unfold tables. rewrite rd32_le32, skipn_le32. unfold W32. rewrite (Z.mod_small (Z.of_nat (List.length names))) by lia.
-  rewrite Nat2Z.id. rewrite read_strings_app by assumption.
-  rewrite rd32_le32, skipn_le32. unfold W32. rewrite (Z.mod_small (Z.of_nat (List.length names))) by lia. rewrite Nat2Z.id.
+  unfold tables. rewrite read32_le32. unfold W32. rewrite (Z.mod_small (Z.of_nat (List.length names))) by lia.
+  rewrite read_strings_app; [| assumption |].
+  2:{ rewrite app_length. pose proof (flat_map_nul_length names). lia. }
+  rewrite read32_le32. unfold W32. rewrite (Z.mod_small (Z.of_nat (List.length names))) by lia.
   rewrite Hl.
-  pose proof (read_symbols_entries offs names [] [] (eq_sym Hl)) as R. cbn [app List.length Nat.add Z.of_nat] in R.
-  rewrite app_nil_r in R. rewrite R; [reflexivity | unfold W32; lia | assumption].
+  pose proof (read_symbols_entries offs names [] [] (S (List.length (entries offs 0))) (eq_sym Hl)) as R. cbn [app List.length Nat.add Z.of_nat] in R.
+  rewrite app_nil_r in R. rewrite R; [reflexivity | unfold W32; lia | assumption | rewrite entries_length; lia].
 Qed.
 
 (* emit_bin writes exactly that format *)
